@@ -477,7 +477,10 @@ pub fn generate(seed: u64, fault_free: bool) -> TypedOut {
                 let mut arms: Vec<(Lv, Ex)> = Vec::new();
                 let n = 2 + g.rng.below(4);
                 for k in 0..n {
-                    let pat = match g.rng.below(22) {
+                    let pat = match g.rng.below(24) {
+                        // k + n: the literal on the left
+                        22 => Lv::Destructure(Box::new(var("+")), vec![Lv::Lit(Box::new(int(g.rng.range(0, 3)))), lv("pa")]),
+                        23 => Lv::Destructure(Box::new(var("+")), vec![Lv::Lit(Box::new(var(&name))), lv("pa")]),
                         // -x: the negation; literally e: an expression's value as a literal
                         17 => Lv::Destructure(Box::new(var("-")), vec![lv("pa")]),
                         18 => Lv::Lit(Box::new(var(&name))),
